@@ -51,6 +51,8 @@ Program(c, p) ==
       [] p = 7 -> <<PutBig(c, 1)>>                      \* declares more than the limit
       [] p = 8 -> <<Get(c, 1) \o L_S_BAD>>              \* valid request discarded with the malformed one
       [] p = 10 -> <<PutBigExpect(c, 1)>>               \* asks for 100 Continue but declares more than the limit
+      [] p = 11 -> <<Get(c, 1), L_S_BAD>>                \* a request is yielded, then the connection sends garbage
+      [] p = 12 -> <<>>                                  \* connects, sends nothing (a newcomer that only receives)
       [] p = 9 -> <<Get(c, 1) \o Get(c, 2) \o Get(c, 3)>>   \* three deep: answers may be supplied around a write
 WellFormed(p) == p \in {1, 2, 3, 4, 6, 9}
 
